@@ -3,6 +3,7 @@ import ast
 
 from . import astutil as A
 from .srcmodel import AnalysisError, ClassInfo, FuncInfo, norm, walk_function
+from .cfg import CFG, reaching_defs
 
 SUPPLIED_METHODS = {'__reduce_ex__', '__reduce__', '__getstate__', '__setstate__', '__getnewargs__', '__getnewargs_ex__'}
 STREAM_ATTRS_IN = {'read', 'name'}
@@ -246,13 +247,20 @@ def r_append_only_stream(ctx, repo):
                     if a.attr in allowed:
                         rule.ok(f.loc(a), '%s.%s in %s' % (base, a.attr, f.name))
                     elif a.attr == 'getvalue' and f.module.name == '__init__':
-                        # must be under `if stream is None:` after stream = io.StringIO()/BytesIO()
-                        p = a
+                        # every definition of the name that reaches this use is `<name> = io.StringIO()/BytesIO()`: the
+                        # value the parameter arrived with does not
                         ok = False
-                        while p is not None and p is not f.node:
-                            p = getattr(p, '_parent', None)
-                            if isinstance(p, ast.If) and norm(p.test) == 'stream is None':
-                                ok = True
+                        if isinstance(a.value, ast.Name):
+                            cfg = CFG(f.node)
+                            st = A.enclosing_stmt(a)
+                            sites = cfg.nodes_of(st) or [x for x in cfg.nodes if x.stmt is st]
+                            rd = reaching_defs(cfg, a.value.id, entry_def=True)
+                            ds = set()
+                            for x in sites:
+                                ds |= rd.get(x, set())
+                            ok = bool(sites) and bool(ds) and all(
+                                d is not cfg.entry and isinstance(d.ast, ast.Assign) and isinstance(d.ast.value, ast.Call)
+                                and norm(d.ast.value.func) in ('io.StringIO', 'io.BytesIO', 'StringIO', 'BytesIO') for d in ds)
                         if ok:
                             rule.ok(f.loc(a), 'getvalue of the stream created by %s itself' % f.name)
                         else:
